@@ -60,6 +60,9 @@ def set_dimensions(poly: PolyLike, dimensions: Optional[int] = None) -> ndpoly:
         exponents = exponents[indices]
         coefficients = [coeff for coeff, idx in zip(poly.coefficients, indices) if idx]
         names = poly.names[:dimensions]
+        if not coefficients:
+            exponents = numpy.zeros((1, dimensions), dtype="uint32")
+            coefficients = [numpy.zeros(poly.shape, dtype=poly.dtype)]
 
     else:
         return poly
